@@ -6,3 +6,11 @@ import PorepyVerif.C25.Props
 #print axioms PorepyVerif.C25.split_normals_opposite
 #print axioms PorepyVerif.C25.mortar_side_counts
 #print axioms PorepyVerif.C25.mortar_after_split
+#print axioms PorepyVerif.C25.nodes_on_line_eq
+#print axioms PorepyVerif.C25.node_index_injective
+#print axioms PorepyVerif.C25.nodes_on_line_exact
+#print axioms PorepyVerif.C25.plane_faces_exact
+#print axioms PorepyVerif.C25.plane_nodes_exact
+#print axioms PorepyVerif.C25.node_components
+#print axioms PorepyVerif.C25.split_nodes_count
+#print axioms PorepyVerif.C25.node_copy_of_cell
